@@ -34,7 +34,7 @@ func (c19) Batches(tier string, seed uint64) []core.Batch {
 
 func (c19) Mandatory(tier string) []string {
 	return []string{"graph:acyclic", "graph:cyclic", "graph:self-loop", "edge:effective", "edge:inactive-later-alternative", "edge:inactive-arch-excluded", "edge:inactive-substvar-first",
-		"edge:target-not-first-binary", "edge:via-Build-Depends", "edge:via-Build-Depends-Arch", "edge:via-Build-Depends-Indep", "outcome:order", "outcome:error", "folded-binary-field"}
+		"edge:target-not-first-binary", "edge:via-Build-Depends", "edge:via-Build-Depends-Arch", "edge:via-Build-Depends-Indep", "outcome:order", "outcome:error", "folded-binary-field", "several-architectures-on-the-same-parsed-sources"}
 }
 
 type c19Src struct {
@@ -185,6 +185,33 @@ func (p c19) run(c *core.C, cs c19Case) {
 	}
 	if cs.Fold {
 		c.Cover("folded-binary-field")
+	}
+	// the same parsed DSCs are first ordered for two OTHER architectures: ordering must not
+	// modify its input, so the result for cs.Arch afterwards must still obey the model
+	for _, other := range c19Archs {
+		if other != cs.Arch {
+			oa, _ := dependency.ParseArch(other)
+			oc := cs
+			oc.Arch = other
+			oe := c19Edges(oc, nil)
+			out, err := control.OrderDSCForBuild(append([]control.DSC{}, dscs...), *oa)
+			if cyc := c19Cyclic(oc, oe); (err != nil) != cyc {
+				c.Failf("OrderDSCForBuild for %s (asked before %s on the same parsed sources): error=%v, the model graph cyclic=%v\nsources: %s", other, cs.Arch, err, cyc, describe(oc))
+			} else if err == nil {
+				pos := map[string]int{}
+				for i, d := range out {
+					pos[d.Source] = i
+				}
+				for s, ps := range oe {
+					for pre := range ps {
+						if pos[pre] >= pos[s] {
+							c.Failf("for %s: %q must come after %q: order %v", other, s, pre, pos)
+						}
+					}
+				}
+			}
+			c.Cover("several-architectures-on-the-same-parsed-sources")
+		}
 	}
 	arch, _ := dependency.ParseArch(cs.Arch)
 	edges := c19Edges(cs, c.Cover)
